@@ -141,7 +141,13 @@ pub fn slot_cycles_v(acc: &mut Acc, kill: usize, desc: bool, variant: u8, cycles
         let (x, y) = pairs[c % 3];
         ops.push(Op::Add(x));
         ops.push(Op::Add(y));
-        if variant == 2 {
+        if variant == 4 {
+            // the group is formed by a script that fails after ADD, ADD, BIND, PUT(y): those four stay applied
+            ops.truncate(ops.len() - 2);
+            ops.push(Op::Script(1, x, y));
+            ops.push(Op::Put(x, 0));
+            ops.push(Op::Data(y));
+        } else if variant == 2 {
             ops.extend([Op::Put(x, 1), Op::Data(x), Op::Put(x, 1), Op::Bind(x, y, 0)]);
         } else if put_first {
             ops.push(Op::Put(x, 0));
@@ -159,7 +165,7 @@ pub fn slot_cycles_v(acc: &mut Acc, kill: usize, desc: bool, variant: u8, cycles
         ops.push(Op::Data(x));
     }
     let alive = 14 - order.len();
-    if run_history::<2>(acc, "C06", &format!("slot table: 14 groups, kill {kill:#016b} {}, then {cycles} cycles ({}) with {alive} groups alive", if desc { "descending" } else { "ascending" }, match variant { 1 => "put before bind", 2 => "heap datum put, read and put again before the bind", 3 => "put after bind, clone_from() into a used object in every 4th cycle", _ => "put after bind" }), 32, &ops) {
+    if run_history::<2>(acc, "C06", &format!("slot table: 14 groups, kill {kill:#016b} {}, then {cycles} cycles ({}) with {alive} groups alive", if desc { "descending" } else { "ascending" }, match variant { 4 => "group formed by a script that fails after four commands", 1 => "put before bind", 2 => "heap datum put, read and put again before the bind", 3 => "put after bind, clone_from() into a used object in every 4th cycle", _ => "put after bind" }), 32, &ops) {
         acc.nontrivial += 1;
         acc.bump("cycle_runs_completed", 1);
         acc.bump("collections_in_cycles", cycles as u64);
@@ -209,10 +215,10 @@ pub fn run_c06_family(tier: &str) -> Acc {
     });
     // long runs: contiguous patterns for every number k of groups kept alive
     let long = if quick { 150 } else { 300 };
-    let lacc = super::par_cases(14 * 4, |k, acc| {
-        let keep = k / 4; // 0..=13 groups stay alive
+    let lacc = super::par_cases(14 * 5, |k, acc| {
+        let keep = k / 5; // 0..=13 groups stay alive
         let kill = ((1usize << 14) - 1) & !((1usize << keep) - 1);
-        slot_cycles_v(acc, kill, false, (k % 4) as u8, long);
+        slot_cycles_v(acc, kill, false, (k % 5) as u8, long);
         acc.bump("long_runs", 1);
     });
     acc.merge(lacc);
